@@ -157,48 +157,50 @@ def resolve_natural(ops, out):
     """A natural-time history (W<ms> = advance the clock, the library's own timer loop fires what
     is due) as a forced-timer history: which timers fired is read off the implementation's trace
     (a datagram with an id that was on the wire before = that node's timer, retransmission; a NACK
-    TOO_MANY_RETRIES = that node's timer, give-up - the datagrams in front of it are the held
-    messages it released).  -> (ops', expected outputs per op') or None if the trace cannot be
-    explained that way (then the model certainly disagrees)."""
+    TOO_MANY_RETRIES = that node's timer, give-up), in order of appearance.  What one W produced
+    for one session is compared as one group (the new datagrams are the held messages released by
+    the give-ups; which give-up released which, and whether its NACK comes before or after them,
+    is not observable by the property).
+    -> (ops', groups) with groups = [(indices into ops', pseudo op, expected items)]"""
     gs = groups(out)
     if gs is None or len(gs) != len(ops):
         return None
     seen = set()
-    rops, rexp = [], []
+    rops, grp = [], []
     for op, items in zip(ops, gs):
         if op[0] != "W":
             sid = re.match(r"[A-Z](\d+)", op).group(1)
             for it in items:
                 if it[0] == "T" and it[1] in "cn":
                     seen.add((sid, it[2:].split(".")[0]))
+            grp.append(([len(rops)], op, items))
             rops.append(op)
-            rexp.append(items)
             continue
-        pend = {}
+        per = {}
+        order = []
         for it in items:
             m = re.match(r"(.*)@(\d+)$", it)
             if not m:
                 return None
             body, sid = m.group(1), m.group(2)
+            if sid not in per:
+                per[sid] = ([], [])
+                order.append(sid)
+            idxs, exp = per[sid]
+            exp.append(body)
             if body[0] == "T" and body[1] in "cn":
                 mid = body[2:].split(".")[0]
                 if (sid, mid) in seen:
-                    if pend.get(sid):
-                        return None
+                    idxs.append(len(rops))
                     rops.append("T%s,%s" % (sid, mid))
-                    rexp.append([body])
                 else:
                     seen.add((sid, mid))
-                    pend.setdefault(sid, []).append(body)
             elif body.startswith("N0."):
-                mid = body.split(".")[1]
-                rops.append("T%s,%s" % (sid, mid))
-                rexp.append(pend.pop(sid, []) + [body])
-            else:
-                return None
-        if any(pend.values()):
-            return None
-    return rops, rexp
+                idxs.append(len(rops))
+                rops.append("T%s,%s" % (sid, body.split(".")[1]))
+        for sid in order:
+            grp.append((per[sid][0], "T%s,0" % sid, per[sid][1]))
+    return rops, grp
 
 
 def peer_ok(ops, out):
@@ -316,11 +318,17 @@ def main(run):
         rr = resolve_natural(ops, cout)
         if rr is None:
             return False, "timer firings of the implementation cannot be explained"
+        rops, grp = rr
         if mout is None:
-            mo, _ = vlib.run_lines_robust(model, [gen_nstart.line_of(prefix, rr[0])])
+            mo, _ = vlib.run_lines_robust(model, [gen_nstart.line_of(prefix, rops)])
             mout = mo[0]
-        exp = " ".join("%d:%s" % (k, ",".join(x)) for k, x in enumerate(rr[1]))
-        return canon(mout, rr[0]) == canon(exp, rr[0]), "model on resolved history: %s" % mout
+        mg = groups(mout)
+        if mg is None or len(mg) != len(rops):
+            return False, "model on resolved history: %s" % mout
+        pseudo = [g[1] for g in grp]
+        exp = " ".join("%d:%s" % (k, ",".join(g[2])) for k, g in enumerate(grp))
+        got = " ".join("%d:%s" % (k, ",".join(x for j in g[0] for x in mg[j])) for k, g in enumerate(grp))
+        return canon(got, pseudo) == canon(exp, pseudo), "model on resolved history: %s" % mout
 
     def check_one(prefix, ops):
         """-> (kind, detail) for a single case; kind in ok / oracle / tie / crash"""
